@@ -595,6 +595,12 @@ func namePool(t *core.Tape) []string {
 
 	p = append(p, "a"+sep+"b"+sep+"c", "A", "Ab", "aB", "id", "type", "r1", "r01", "r001", "r10", "r2")
 
+	if sep != "" {
+		// the separator at either end and on its own (a blank name, with sep = " ")
+		p = append(p, "a"+sep, sep+"a", sep, "b"+sep, "\ta\n")
+	}
+
+
 	return p
 }
 
